@@ -25,6 +25,14 @@ PROPS = {
         "assumptions": ["scalars are exact real numbers", "T::epsilon() is an arbitrary real eps > 0"],
         "coq_timeout": 1500,
     },
+    "C07": {
+        "claimed": True,
+        "technique": "Coq proof (ring, induction over chains) over programs translated from the compiled generic code by symbolic execution",
+        "level_text": "translation/scaling/shear constructors of Mat2/3/4 in both layouts are proved (for all parameters, over any commutative ring) to denote the textbook matrices, whose action on points (w=1) and directions (w=0) is proved to be the defining one; every *_ed builder is proved to be pre-multiplication by its constructor and every in-place variant to equal the returning one; by induction over chains of ANY length the built matrix applies its steps to a point in call order; Mat4::from(Transform) is proved to be p -> position + Q(orientation)(scale . p) (this failed on the pinned tree and was repaired by a fix: commit) and the default Transform the identity.",
+        "level_note": "Trusted: Coq kernel; symx translator (self-checked each run); Rust parametricity. Exact ring arithmetic; sin/cos of rotation steps are arbitrary functions here (their trigonometric meaning is C04). Theorems are closed under the global context.",
+        "design_ref": "DESIGN.md section 7, C07",
+        "assumptions": ["scalars are elements of an arbitrary commutative ring (exact arithmetic)"],
+    },
 }
 
 for _k in PROPS: PROPS[_k].setdefault("selfcheck", {"quick": 200, "thorough": 5000})
